@@ -34,7 +34,7 @@ def run(ctx):
         T.clause_tables(R, F, dm, only_fields=reads)
     # 1. order + completeness; uncommitted rows shadow committed ones ("whether or not the blocks have been committed")
     T.clause_scan_unord(R, F, CG, U)
-    T.clause_read_merge(R, F)
+    T.clause_read_merge(R, F, scans=("get_range",))
     sites = U.analyze(fn.id, frozenset())
     R.ob(not sites, "U-RETURN", fn.where(), "U-RETURN|%s" % fn.name,
          "get_logs builds its result by walking a sequence in hash iteration order (%s): log order differs between "
